@@ -36,6 +36,16 @@ ASSIGNS(n != 0: OBJ_UPTO((uint8_t *)dst, n))
 #endif
 ENSURES(RET == dst)
 ENSURES(MEMCPY_IDX < n IMPLIES ((const uint8_t *)dst)[MEMCPY_IDX] == ((const uint8_t *)src)[MEMCPY_IDX])
+#ifdef CONTRACT_MEMCPY_SMALL16
+/* copies of at most 16 bytes are described completely (jobs that follow bytes through offset-shifting staging copies) */
+#define MC16_(k) ((k) < n IMPLIES ((const uint8_t *)dst)[k] == ((const uint8_t *)src)[k])
+ENSURES(n <= 16 IMPLIES (MC16_(0) && MC16_(1) && MC16_(2) && MC16_(3) && MC16_(4) && MC16_(5) && MC16_(6) && MC16_(7)
+	&& MC16_(8) && MC16_(9) && MC16_(10) && MC16_(11) && MC16_(12) && MC16_(13) && MC16_(14) && MC16_(15)))
+#endif
+#ifdef G_MC_MEMCPY_EXPR2
+/* a second, independently chosen index (a job that follows two positions through the same copy) */
+ENSURES(((size_t)(G_MC_MEMCPY_EXPR2)) < n IMPLIES ((const uint8_t *)dst)[(size_t)(G_MC_MEMCPY_EXPR2)] == ((const uint8_t *)src)[(size_t)(G_MC_MEMCPY_EXPR2)])
+#endif
 ;
 /* memcmp as an arbitrary total order test over readable ranges (result unconstrained).
    Recording variant: what was compared, over how many bytes, and the answer (P-TAINT). */
